@@ -15,10 +15,20 @@ def fJson (f : Float) : Json := if f.isNaN then Json.str "nan" else floatToJson 
 def handle (j : Json) : Json :=
   match (do
     let ab ← parsePairs (← jField j "ab")
+    -- either the per-axis box, or a stored box with its order flag {"obox": {"order": "C"|"F", "stored": [[lo,hi]..]}}
     let box : Option (List (Float × Float)) ←
-      match jFieldD j "box" Json.null with
-      | .null => pure none
-      | b => (parsePairs b).map some
+      match jFieldD j "obox" Json.null with
+      | .null =>
+        match jFieldD j "box" Json.null with
+        | .null => pure none
+        | b => (parsePairs b).map some
+      | ob => do
+        let stored ← parsePairs (← jField ob "stored")
+        let order ← match jStr (← jField ob "order") with
+          | some "C" => some BoxOrder.C
+          | some "F" => some BoxOrder.F
+          | _ => none
+        pure (some (setOBox (.obj ⟨order, stored⟩)).toF)
     let fill ← jFloat (← jField j "fill")
     let wbb ← jBool (← jField j "withbb")
     let pts ← jList (jList jFloat) (← jField j "pts")
@@ -28,6 +38,7 @@ def handle (j : Json) : Json :=
     let out := evalBatch (affine ab) ab.length box wbb fill pts
     okJson (Json.mkObj [
       ("vals", listToJson (listToJson fJson) out),
+      ("box_f", match box with | some b => listToJson (fun (iv : Float × Float) => Json.arr #[fJson iv.1, fJson iv.2]) b | none => Json.null),
       ("outside", listToJson Json.bool (pts.map (fun p => match box with | some b => outside b p | none => false)))])
 
 end Gwcs.Drv.C03
